@@ -2,10 +2,11 @@
 from session_common import *
 
 ID = 'C02'
-COQ_TARGETS = ['Props/Properties_C02.vo']
-PROPS_FILES = ['Props/Properties_C02.v']
+COQ_TARGETS = ['Props/Properties_C02.vo', 'Props/Properties_C02_trace.vo']
+PROPS_FILES = ['Props/Properties_C02.v', 'Props/Properties_C02_trace.v']
 THEOREMS = ['C02_message', 'C02_submission_additions', 'C02_submission_constants', 'C02_submission_full_refuted', 'C02_submission_partial',
-            'C02_handoff_message', 'C02_message_checker_sound', 'C02_envelope', 'C02_trace_received', 'C02_trace_spf_none', 'C02_trace_spf_none_is_c11']
+            'C02_handoff_message', 'C02_message_checker_sound', 'C02_envelope', 'C02_trace_received', 'C02_trace_spf_none', 'C02_trace_spf_none_is_c11',
+            'C02_trace_header_valid', 'C02_trace_spf_field_shape', 'C02_trace_header_with_valid', 'C02_trace_checker_sound']
 ENGINES = [ENGINE]
 RULE = ('sessions with one to three accepted transactions whose data exercise the copy loops: bodies of arbitrary octets 1..255 except bare CR/LF, '
         'lines of 0, 1, 997..999 octets, lines that are dots only or start with one to three dots, empty header, empty body, no separator line, '
@@ -16,8 +17,8 @@ RULE = ('sessions with one to three accepted transactions whose data exercise th
         'header and body, empty header, no body, nothing at all, bounce and mixed-case senders, several transactions with different senders, size limits hit '
         'exactly and by one, strict mode on top, a dying qmail-queue; and the same payloads on ports 25, 465, 58, 5870 (nothing may be added). The hand-off recorded by '
         'the qmail-queue stand-in (envelope and message; dates masked: the added Date: only where it equals the Received: date) is compared byte for byte with the model, '
-        'whose trace header is the extracted model of write_received()/spfreceived(); every hand-off of a simple session is also judged by the extracted checker '
-        'handoff_msg_ok (the property as stated). non-trivial = at least one hand-off; distinct by case text')
+        'whose trace header is the extracted model of write_received()/spfreceived(); every hand-off of a simple session is also judged by the extracted checkers '
+        'handoff_msg_ok (the property as stated) and handoff_hdr_check (what stands in front of the data is a block of valid header fields). non-trivial = at least one hand-off; distinct by case text')
 TRUSTED_BASE = TRUSTED_COMMON + ['coq/Model/Trace.v: hand transcription of write_received() and of the SPF_NONE branch of spfreceived(); used by the model side of the correspondence run, so every compared message checks it']
 ASSUMPTIONS = ASSUMPTIONS_COMMON + [
     'strings embedded in the trace header other than HELO argument and addresses (reverse DNS name, TCPREMOTEINFO, authenticated user name, certificate subject, cipher name) are assumed free of CR/LF; the user name of SMTP AUTH is client-chosen and only constrained by what checkpassword accepts',
@@ -30,7 +31,9 @@ LEVEL_TEXT = ('Coq theorems: (message) for every reader state and byte stream, w
               'other port nothing is added; (session) every hand-off of every session is such a message together with the envelope of the same sender - the From: field '
               'carries the F address; (envelope) for all sessions every '
               'hand-off envelope is F sender NUL (T recipient NUL)* NUL of the transaction open at that point, literals rewritten to localiphost; '
-              '(trace) the Received: field is three correctly folded lines without CR for all embedded strings that are themselves free of CR/LF. '
+              '(trace) the Received: field is three correctly folded lines without CR for all embedded strings that are themselves free of CR/LF; the whole trace header, with the '
+              'Received-SPF field of every SPF result, is a block of syntactically valid header fields (no NUL, CR, unfolded line break, nameless line) for all embedded strings free of NUL/CR/LF, '
+              'and the checker run on the implementation\'s hand-offs accepts every such header (C02_trace_checker_sound). '
               'The property as worded ("when the client omitted them", judged on the stored lines) is refuted by a witness (C02_submission_full_refuted: '
               'a header line ".Date: x") and proved for all messages outside that decidable class (C02_submission_partial). '
               'Tied to the binary by byte-for-byte comparison of recorded hand-offs in whole-program runs.')
